@@ -54,10 +54,12 @@ claim('C15', 'Proof (taint argument by symbolic execution of the real code, mask
       'log lines and exception messages of VideoReader.__init__ / VideoWriter.__init__ + new_writer, and the frame metadata meta.src went through hide_uri_users_and_pwds: structural '
       'induction on the real recursive walk hide_config_pwds (every node kind: str, list, tuple, FilterConfig, nested dict, per-source record), hence every nesting depth. '
       'That the masker itself hides the credential is a BOUNDED exhaustive enumeration over the RFC 3986 grammar (labelled bounded, not proved).', '6-C15')
-claim('C12', 'Proof, on the real cli.common.parse_filters CUT at `filter_id_configs = {}` (the argument-parsing prefix is not under contract) and the real only_mq_addr, over rope-shaped '
-      'configurations of 1..3 filters with symbolic ids, hosts, topics and ports: ids pairwise different (else rejected), automatic tcp outputs >= max(explicit ports)+2, 2 apart, never '
-      'overlapping each other or a user-given port pair, the rewritten source carries the same port / ipc name as the output it binds and exactly one filter binds it, topic/option/ephemeral '
-      'suffixes preserved, explicit addresses passed through. The whole function incl. argument parsing is covered by a BOUNDED native enumeration only (labelled bounded).', '6-C12')
+claim('C12', 'Proof, on the WHOLE real cli.common.parse_filters (command lines in the `--param value` and `--param=value` spellings, `--x=` for no value, `-` between filters; get_filter and '
+      'json_getval by assumed contracts: values are ids/addresses, not JSON literals; the -env options are not exercised) and additionally on the function cut at `filter_id_configs = {}`, '
+      'and the real only_mq_addr, over rope-shaped configurations of 1..3 filters with symbolic ids, hosts, topics and ports: ids pairwise different (else rejected; a user id may spell an '
+      'automatic one), automatic tcp outputs >= max(explicit ports)+2, 2 apart, never overlapping each other or a user-given port pair, the rewritten source carries the same port / ipc name '
+      'as the output it binds and exactly one filter binds it, topic/option/ephemeral suffixes preserved, explicit addresses passed through. Longer lists (4..6 filters) and JSON-valued '
+      'options are covered by a BOUNDED native enumeration only (labelled bounded).', '6-C12')
 claim('C11', 'Proof, over ropes of literals and opaque tokens, that the real Filter.parse_topics and Filter.parse_options are the inverse of rendering for lists of 0..3 topic '
       'mappings / options of every kind (same, a>b, empty, >b, a>, flag, no-flag, name=json, name=text, whitespace variation, a "!" inside a password), and that the real base '
       'Filter.normalize_config is idempotent and maps the comma-text form and the list form to the same result (0..3 sources, mq_log / exit_after / extra_metrics forms). The other nine '
